@@ -118,7 +118,10 @@ class Worker:
             if case.get('late'):
                 lk = tuple(case['late'])
                 late = [(addr(sh, c, r), v) for sh, c, r, k, v in cells if (sh, c, r) == lk][0]
-                cells = [x for x in cells if (x[0], x[1], x[2]) != lk]
+                if case.get('was'):      # the cell exists from the start, holding another value
+                    cells = [x if (x[0], x[1], x[2]) != lk else (x[0], x[1], x[2], 'const', xl.from_abs(case['was'], 'native')) for x in cells]
+                else:
+                    cells = [x for x in cells if (x[0], x[1], x[2]) != lk]
             names = names_of(case)
             target = case['pname'] or addr(*case['probe'])
             paths = []
